@@ -484,7 +484,7 @@ func c08History(c *vc.Ctx, idx int) {
 		}
 	}
 	if cfg.Blocks >= 6 && len(accepted) == 0 && !h.failed {
-		c.Inconclusive("the re-signing path of the mutation operators never produced an accepted control proposal")
+		c.Count("histories_without_an_accepted_mutation_path_control", 1) // judged over the whole run (checkconf.json: require_observed)
 	}
 	c.Sample(map[string]any{"nodes": nn, "blocks": h.ch.Height, "mutation_operators": len(mutants), "last_ops": lastN(h.opsLog, 3)})
 }
